@@ -183,18 +183,18 @@ func (p c11) check(rc Recipe, st State, rep *runner.Reporter) {
 							if (t.DefRangePtr == nil) != (rt.DefRangePtr == nil) || (t.DefRangePtr != nil && *t.DefRangePtr != *rt.DefRangePtr) {
 								continue
 							}
-							if len(t.Addr) > 0 && t.Addr.Equals(cAddr) {
+							if len(t.Addr) > 0 && addrEqualSteps(t.Addr, cAddr) {
 								okAddr = true
 							}
 							// a dynamically typed declaration also answers for unknown nested paths
-							if len(t.Addr) > 0 && len(cAddr) > len(t.Addr) && t.Type == cty.DynamicPseudoType && lang.Address(cAddr[:len(t.Addr)]).Equals(t.Addr) {
+							if len(t.Addr) > 0 && len(cAddr) > len(t.Addr) && t.Type == cty.DynamicPseudoType && addrEqualSteps(lang.Address(cAddr[:len(t.Addr)]), t.Addr) {
 								okAddr = true
 							}
 							if len(t.LocalAddr) > 0 && t.TargetableFromRangePtr != nil && rangeWithin(or, *t.TargetableFromRangePtr) {
-								if t.LocalAddr.Equals(cAddr) {
+								if addrEqualSteps(t.LocalAddr, cAddr) {
 									okLocal = true
 								}
-								if len(cAddr) > len(t.LocalAddr) && t.Type == cty.DynamicPseudoType && lang.Address(cAddr[:len(t.LocalAddr)]).Equals(t.LocalAddr) {
+								if len(cAddr) > len(t.LocalAddr) && t.Type == cty.DynamicPseudoType && addrEqualSteps(lang.Address(cAddr[:len(t.LocalAddr)]), t.LocalAddr) {
 									okLocal = true
 								}
 							}
@@ -251,7 +251,7 @@ func (p c11) check(rc Recipe, st State, rep *runner.Reporter) {
 				// (v) completeness for the simple type-less case
 				if lo, ok := o.(reference.LocalOrigin); ok && kind == "local" && b == or.Start.Byte {
 					for _, t := range flat[path] {
-						if t.Type.Equals(ctyNil) && t.RangePtr != nil && t.Addr.Equals(lo.Addr) && len(t.LocalAddr) == 0 {
+						if t.Type.Equals(ctyNil) && t.RangePtr != nil && addrEqualSteps(t.Addr, lo.Addr) && len(t.LocalAddr) == 0 {
 							match := false
 							for _, c := range lo.Constraints {
 								if c.OfType.Equals(ctyNil) && c.OfScopeId == t.ScopeId && c.OfScopeId != "" {
@@ -290,3 +290,17 @@ func (p c11) Replay(w *runner.Witness, rep *runner.Reporter) error {
 var _ = hcl.Range{}
 
 func init() { Register(c11{}) }
+
+// addrEqualSteps compares two addresses step by step (kind and value of every step):
+// the harness' own notion of "the same address", independent of how addresses render.
+func addrEqualSteps(a, b lang.Address) bool {
+	if len(a) != len(b) {
+		return false
+	}
+	for i := range a {
+		if fmt.Sprintf("%T", a[i]) != fmt.Sprintf("%T", b[i]) || a[i].String() != b[i].String() {
+			return false
+		}
+	}
+	return true
+}
